@@ -340,7 +340,11 @@ class Documentable:
         parts = name.split('.')
         obj: Documentable = self
         for i, p in enumerate(parts):
-            if i != 0 and isinstance(obj, Class):
+            if i != 0 and isinstance(obj, Inheritable):
+                # A function or a variable has no attribute we know of: the path 
+                # does not continue in the scope that encloses it.
+                full_name = p
+            elif i != 0 and isinstance(obj, Class):
                 # An attribute of a class is looked up in the class and in the classes it inherits from,
                 # not in the scopes that enclose the class statement.
                 if p in obj.contents:
